@@ -1052,6 +1052,25 @@ impl Node {
                 "ok".into()
             }
             "x-group-complete" => "ok".into(), // judged on the trace
+            "created" => {
+                // created <c> : creation times of streams, topics and users as the client sees them
+                let Some(c) = self.c(f[1]) else {
+                    return "err no-such-connection".into();
+                };
+                let mut out = vec![];
+                for st in r!(c.get_streams().await) {
+                    out.push(format!("s{}={}", st.id, st.created_at.as_micros()));
+                    if let Some(d) = r!(c.get_stream(&Identifier::numeric(st.id).unwrap()).await) {
+                        for t in d.topics {
+                            out.push(format!("s{}t{}={}", st.id, t.id, t.created_at.as_micros()));
+                        }
+                    }
+                }
+                for u in r!(c.get_users().await) {
+                    out.push(format!("u{}={}", u.id, u.created_at.as_micros()));
+                }
+                format!("ok {}", out.join(","))
+            }
             "cwait" => {
                 tokio::time::sleep(std::time::Duration::from_millis(f[1].parse().unwrap())).await;
                 "ok".into()
